@@ -96,7 +96,8 @@ def geometry_claim(shape, knots, pad_fraction):
     return claim
 
 
-def weight_claim(shape, out_shape):
+def weight_claim(shape, out_shape, margin=0.0):
+    """margin > 0: sample positions up to `margin` pixels outside the canvas (a rotated image with little padding)"""
     def claim(I):
         over = dict(ravel_multi_index=lambda inds, dims, mode=None: np.zeros(len(np.asarray(inds[0]).reshape(-1)), dtype=int),
                     bincount=lambda idx, weights=None, minlength=0: _scatter_total(weights, minlength))
@@ -106,8 +107,8 @@ def weight_claim(shape, out_shape):
             core.ctx().symbolic_int_arrays = True
         try:
             with I.patch(iu, overrides=over):
-                xa = I.array("xa", shape, lo=0, hi=out_shape[0] - 1)
-                ya = I.array("ya", shape, lo=0, hi=out_shape[1] - 1)
+                xa = I.array("xa", shape, lo=0 - margin, hi=out_shape[0] - 1 + margin)
+                ya = I.array("ya", shape, lo=0 - margin, hi=out_shape[1] - 1 + margin)
                 vals = I.array("v", shape, lo=0, hi=1)
                 img, w = iu.bilinear_kde(xa, ya, vals, out_shape, 0.5, pad_value=0.0, return_pix_count=True)
                 n = shape[0] * shape[1]
@@ -188,6 +189,8 @@ def cases(tier):
                 out.append((f"geometry[{shape};knots={knots};pad={pad}]", geometry_claim(shape, knots, pad), L))
     for shape, osh in (((2, 2), (4, 4)), ((3, 2), (5, 4)), ((1, 4), (4, 6))):
         out.append((f"unit_weight[{shape}->{osh}]", weight_claim(shape, osh), L))
+    out.append(("unit_weight_outside_canvas[(1, 1)->(3, 3);margin 1.5]", weight_claim((1, 1), (3, 3), margin=1.5), L))
+    out.append(("unit_weight_outside_canvas[(1, 2)->(2, 3);margin 1]", weight_claim((1, 2), (2, 3), margin=1.0), L))
     for n_images in (2, 3):
         for up in ((1, 3, 8) if tier == "quick" else (1, 2, 3, 4, 7, 8)):
             out.append((f"fixed_point[{n_images} images;up={up}]", fixed_point_claim(n_images, up), dict(logic=None, max_paths=8)))
